@@ -165,17 +165,17 @@ func RE(re *regexp.Regexp, submatchcb func([]string) bool) Func {
 func Delimited(
 	term Func, delimiter Func) Func {
 	return func(e *Parser) bool {
-		terms := 0
-		for {
-			if !term(e) {
-				break
-			}
-			terms++
-			if !delimiter(e) {
-				break
-			}
+		if !term(e) {
+			return false
 		}
-		return terms > 0
+		for {
+			// a delimiter belongs to the list only if another term follows it
+			next := e.Copy()
+			if !delimiter(next) || !term(next) {
+				return true
+			}
+			*e = *next
+		}
 	}
 }
 
